@@ -67,6 +67,10 @@ def parse_url(url: str) -> tuple:
     else:
         resource = "/"
 
+    if parsed.params:
+        # urlparse splits ";params" off the last path segment: it is part of the path
+        resource += f";{parsed.params}"
+
     if parsed.query:
         resource += f"?{parsed.query}"
 
